@@ -512,7 +512,8 @@ class MarkdownRenderer(BaseRenderer):
                 is_first_line = False
             else:
                 prefixed = following_line_prefix + line
-            yield prefixed if not prefixed.isspace() else ""
+            # an empty line gets no white-space-only prefix; a line that holds white space of its own (in a code block) keeps it
+            yield prefixed if line or not prefixed.isspace() else ""
 
     def table_row_to_text(self, row) -> Sequence[str]:
         """
